@@ -22,6 +22,7 @@ ASSUMPTIONS = [
 ]
 OBLIGATIONS = {
     "history_sequences": "operation sequences (non-initial process states) explored",
+    "concurrent_calls": "interleavings of two concurrent scalar multiplications (cold and after sequential warm-up calls)",
     "add_identity": "P + identity / identity + identity evaluated",
     "add_double": "P + P evaluated",
     "add_inverse": "P + (-P) evaluated",
@@ -209,7 +210,31 @@ CASES = {"add": chk_add, "mul": chk_mul, "ident": chk_ident, "coord": chk_coord,
          "keygen": chk_keygen}
 
 
+def _concur_setup(case):
+    import bits.ecmath as em
+    C = _curve(case)
+    G = C.G
+    calls = [(lambda k=k: em.point_scalar_mul(k, tuple(case.get("P") or G))) for k in case["ks"]]
+    warm = (lambda: [em.point_scalar_mul(k, tuple(case.get("P") or G)) for k in case["warm"]]) if case.get("warm") else None
+
+    def judge(results, errors):
+        out = []
+        for i, k in enumerate(case["ks"]):
+            exp = C.mul(k, tuple(case.get("P") or G))
+            if i in errors:
+                out.append(("C03/concurrent/raised", f"thread {i}: point_scalar_mul({k}, G) raised {errors[i]}"))
+            elif results[i] != exp:
+                out.append(("C03/concurrent/wrong-product", f"thread {i}: point_scalar_mul({k}, G) = {results[i]}, reference {exp} "
+                            f"(warm-up calls before the threads: {case.get('warm')})"))
+        return out
+    return calls, warm, judge
+
+
 def run_case(kind, case):
+    if kind == "concur":
+        from vf import concur
+        calls, warm, judge = _concur_setup(case)
+        return concur.replay_calls(calls, ("bits/ecmath.py",), case["choices"], judge, warmup=warm)
     if kind == "seq":
         from vf import seqexplore
         return seqexplore.replay(run_case, case)
@@ -234,6 +259,7 @@ def seq_ops(job):
 def real_scalars(tier, seed):
     n = S.n
     ks = [0, 1, 2, 3, 4, 5, n - 2, n - 1, n, n + 1, 2 * n - 1, 2 * n, 2 * n + 1, 2 ** 256 - 1, 2 ** 256, (n - 1) // 2, (n + 1) // 2,
+          (n - 1) ** 2, (n - 1) ** 4, 2 ** 1000 + 1, 2 ** 1500 - 1, 2 ** 4096 + 12345,
           int.from_bytes(filler(seed, "c03-k", 32), "big"), int.from_bytes(filler(seed, "c03-k2", 40), "big")]
     for i in range(0, 257):
         ks.append(2 ** i)
@@ -269,6 +295,8 @@ def jobs(tier, seed):
     js.append({"name": "secp/keys", "part": "realkeys", "weight": 6})
     from vf.runner import seq_jobs
     js += seq_jobs(3, curve=list(smallcurve.TABLE[0]), weight=3)
+    for i in range(3):
+        js.append({"name": f"concurrent-mul/{i}", "part": "concur", "curve": list(smallcurve.TABLE[0]), "idx": i, "weight": 5})
     return js
 
 
@@ -279,6 +307,16 @@ def run_job(job):
     acc = Acc(job)
     part = job["part"]
     cv = job.get("curve")
+    if part == "concur":
+        from vf import concur
+        C = smallcurve.curve(cv)
+        scen = [{"ks": [C.n + 5, 2 * C.n + 1], "warm": []}, {"ks": [C.n + 5, 2 * C.n + 1], "warm": [1]}, {"ks": [29, 45], "warm": [5, 0]}][job["idx"]]
+        case = {"curve": cv, **scen}
+        calls, warm, judge = _concur_setup(case)
+        ex = concur.explore_calls(acc, calls, ("bits/ecmath.py",), 1 if job["tier"] == "quick" else 2, judge, "concur", case, warmup=warm)
+        acc.ob("concurrent_calls", ex.executions)
+        acc.sample({"concurrent_mul": scen, "executions": ex.executions})
+        return acc.result()
     if cv:
         C = smallcurve.curve(cv)
         pts = [None] + C.all_points()
